@@ -24,6 +24,9 @@ from . import fsseam
 from .kernel import Decider, HarnessError, Sim, SimAbort, Violation, derive
 
 PROP = "C19"
+# spellings of the one queue file: plain, Path object, relative, through '..' after a real directory, through '..' after a
+# symlinked directory whose target lives elsewhere (the OS takes '..' from the target, not from the text), through a symlink
+PATHFORMS = ["str", "str", "str", "Path", "relative", "dotdot", "dotdot-symlink", "via-symlink"]
 POLL_NS = 10_000_000  # receive_async sleeps 0.01 s between polls
 
 
@@ -132,12 +135,12 @@ def gen_spec(seed: int, config: str | None = None) -> dict:
     serial = 0
     sends_by_node = {}
     for i in range(n_w):
-        nodes.append({"name": f"w{i}", "role": "writer", "script": [], "pathform": rng.choice(["str", "str", "Path", "relative"])})
+        nodes.append({"name": f"w{i}", "role": "writer", "script": [], "pathform": rng.choice(PATHFORMS)})
     both = rng.random() < 0.2
     for i in range(n_r):
         mode = rng.choice(["iter", "iter", "batch", "async"])
         role = "both" if (both and i == 0 and mode != "async") else "reader"
-        nodes.append({"name": f"r{i}", "role": role, "mode": mode, "script": [], "pathform": rng.choice(["str", "str", "Path", "relative"])})
+        nodes.append({"name": f"r{i}", "role": role, "mode": mode, "script": [], "pathform": rng.choice(PATHFORMS)})
         if mode == "async" and rng.random() < 0.25:
             nodes[-1]["consumers"] = 2
         if mode == "async" and rng.random() < 0.5:
@@ -625,6 +628,14 @@ class NodeRunner:
             path = Path(self.path)
         elif form == "relative":
             path = os.path.join(".", os.path.relpath(self.path, os.getcwd()))
+        elif form in ("dotdot", "dotdot-symlink", "via-symlink"):
+            # the file is <q>/real/<name>; <q>/real/sub is a directory; <q>/link -> real/sub ; <q>/alias -> real
+            d, name = os.path.split(self.path)
+            q = os.path.dirname(d)
+            path = {"dotdot": os.path.join(d, "sub", "..", name), "dotdot-symlink": os.path.join(q, "link", "..", name),
+                    "via-symlink": os.path.join(q, "alias", name)}[form]
+            if os.path.realpath(path) != os.path.realpath(self.path):
+                raise HarnessError(f"path form {form} does not name the queue file: {path}")
         self.q = PacketzQueue(path)
         self.inc = {"node": self.node["name"], "idx": len([i for i in self.hist.incarnations if i["node"] == self.node["name"]]),
                     "deliveries": [], "final": False, "born": self.hist.tick()}
@@ -1095,8 +1106,16 @@ def run(spec: dict, decider: Decider, keep_events: bool = False) -> RunResult:
     root = _SCRATCH["dir"] or os.getcwd()
     _SCRATCH["n"] += 1
     qdir = os.path.join(root, "q")
-    os.makedirs(qdir, exist_ok=True)
-    path = os.path.join(qdir, "queue.pktz.jsonl")
+    os.makedirs(os.path.join(qdir, "real", "sub"), exist_ok=True)
+    for lnk, target in (("link", os.path.join("real", "sub")), ("alias", "real")):
+        if not os.path.islink(os.path.join(qdir, lnk)):
+            os.symlink(target, os.path.join(qdir, lnk))
+    path = os.path.join(qdir, "real", "queue.pktz.jsonl")
+    for stray in (os.path.join(qdir, "queue.pktz.jsonl"), os.path.join(qdir, "real", "sub", "queue.pktz.jsonl")):
+        try:
+            os.unlink(stray)  # a file that a wrongly resolved spelling created in an earlier run
+        except FileNotFoundError:
+            pass
     try:
         os.unlink(path)
     except FileNotFoundError:
